@@ -769,6 +769,63 @@ def r6_8(ctx):
     ctx.floor("R6.8", n, 9, "handlers that operate on the selected mailbox")
 
 
+DELIVER = {
+    # handler -> (how the data is produced, minimum number of pushes that carry it)
+    "client.Authenticated.do_search": ("search",),
+    "client.Authenticated.do_fetch": ("fetch",),
+    "client.Authenticated.do_store": ("store",),
+    "client.Authenticated.do_status": ("next_uid", "num_msgs"),
+    "client.Authenticated.do_select": ("selected",),
+    "client.Authenticated.do_list": ("list",),
+}
+
+
+def r6_9(ctx):
+    """"...after all untagged data belonging to it": in each handler that produces untagged data, what the mailbox operation
+    returned (SEARCH hits, FETCH items, STORE's flag lines, the STATUS values, the SELECT preamble, the LIST entries) flows
+    into a push to the client (def-use from the producing call / attribute to an argument of <x>.client.push)."""
+    p = ctx.p
+    n = 0
+    for key, srcs in DELIVER.items():
+        fi = p.func(key)
+        ctx.analysed(fi)
+        n += 1
+        tainted: set[str] = set()
+        # seeds: names bound from a call / attribute named in srcs
+        def produces(e):
+            return any((isinstance(x, ast.Call) and call_name(x) in srcs) or (isinstance(x, ast.Attribute) and x.attr in srcs) for x in ast.walk(e))
+
+        changed = True
+        rounds = 0
+        while changed and rounds < 6:
+            changed = False
+            rounds += 1
+            for s_ in body_walk(fi.node):
+                tg, val = [], None
+                if isinstance(s_, ast.Assign):
+                    tg, val = s_.targets, s_.value
+                elif isinstance(s_, ast.AugAssign):
+                    tg, val = [s_.target], s_.value
+                elif isinstance(s_, (ast.For, ast.AsyncFor)):
+                    tg, val = [s_.target], s_.iter
+                elif isinstance(s_, ast.Call) and call_name(s_) in ("append", "extend", "add") and isinstance(call_recv(s_), ast.Name) and s_.args:
+                    tg, val = [call_recv(s_)], s_.args[0]
+                if val is None:
+                    continue
+                if produces(val) or (names_in(val) & tainted):
+                    for t in tg:
+                        for x in ast.walk(t):
+                            if isinstance(x, ast.Name) and x.id not in tainted:
+                                tainted.add(x.id)
+                                changed = True
+        delivered = [c for c in calls_in(fi.node) if is_push_call(c) and any((names_in(a) & tainted) or produces(a) for a in c.args)]
+        if delivered:
+            ctx.ok("R6.9", where(fi), f"data produced by {'/'.join(srcs)} reaches {norm(delivered[0].func)}(...)")
+        else:
+            ctx.bad("R6.9", fi.module, fi.qual, f"{'/'.join(srcs)} -> push", f"what {'/'.join(srcs)} produces no longer reaches a push to the client: the command is answered OK without its untagged data", fi.node.lineno)
+    ctx.floor("R6.9", n, 6, "handlers that produce untagged data")
+
+
 def run(ctx):
     ctx.do(r6_1)
     ctx.do(r6_2)
@@ -777,6 +834,7 @@ def run(ctx):
     ctx.do(r6_6)
     ctx.do(r6_7)
     ctx.do(r6_8)
+    ctx.do(r6_9)
     from . import c01
     ctx.do(c01.r1_5)
     # R6.5 = C08 R8.1 (a non-BadCommand exception from parse() skips every reply path); admission relation and
